@@ -1,7 +1,7 @@
 (* C11 property theorems: statements only, each closed by [exact]. *)
 From Boltons Require Import Lib.Prelude Lib.C11_Iface Spec.C11_Spec Model.C11_Model Gen.C11_Gen Check.C11_Check
      Proofs.C11_Lists Proofs.C11_Dead Proofs.C11_Inv Proofs.C11_Sets Proofs.C11_Refine Proofs.C11_Slice
-     Proofs.C11_Main Proofs.C11_Transfer.
+     Proofs.C11_Main Proofs.C11_Transfer Gen.C11_Src Proofs.C11_SrcEq.
 From Coq Require Import Permutation Sorted.
 
 (* MAIN: for every compaction configuration, every history of the 29 public
@@ -62,6 +62,19 @@ Theorem C11_index : forall s x, Inv0 s ->
   m_index s x = match l_index x (m_live s) with Some i => Ok i | None => Raise ValueError end.
 Proof. exact index_ok. Qed.
 Print Assumptions C11_index.
+
+(* (T) the text of _get_real_index / _get_apparent_index, regenerated from the current source on every
+   run (Gen/C11_Src.v), computes what the model computes *)
+Theorem C11_source_real_index : forall s i r,
+  Inv0 s -> m_real_index s i = Ok r -> src_get_real_index s i = Z.of_nat r.
+Proof. exact source_real_index. Qed.
+Print Assumptions C11_source_real_index.
+
+Theorem C11_source_apparent_index : forall s x r n,
+  Inv0 s -> d_get (imap s) x = Some r -> m_index s x = Ok n ->
+  src_get_apparent_index s (Z.of_nat r) = Z.of_nat n.
+Proof. exact source_apparent_index. Qed.
+Print Assumptions C11_source_apparent_index.
 
 (* s[a:b:k], k > 0: iter_slice + islice = the list slice of CPython *)
 Theorem C11_slice : forall s a b k, Inv s -> valid_op (m_live s) (Slice a b k) = true ->
